@@ -193,6 +193,7 @@ CmdIncrByFloat(s, now, a) ==
   IF Len(a) # 3 THEN One(RErr, s, "incrbyfloat.arity")
   ELSE LET p == ParseDec(a[3]) k == a[2] IN
        IF Has(s, k) /\ ~HasT(s, k, "string") THEN One(RWrong, s, "incrbyfloat.wrongtype")
+       ELSE IF Len(a[3]) > 15 \/ (Has(s, k) /\ Len(Val(s, k)) > 15) THEN One(RAny, s, "incrbyfloat.unmodelled_precision")
        ELSE IF ~p.ok THEN One(RErr, s, "incrbyfloat.argnotfloat")
        ELSE LET cur == IF Has(s, k) THEN ParseDec(Val(s, k)) ELSE ParseDec(L_zero) IN
             IF ~cur.ok THEN One(RErr, s, "incrbyfloat.notfloat")
